@@ -17,7 +17,7 @@ pub const OPT_REF: DumpOpt = DumpOpt { merged: true, ns: true, prolog: true, spe
 /// known_findings.json (each exclusion has a witness that is replayed on every run)
 pub fn c01_cfg() -> GenCfg {
     let mut c = GenCfg::full();
-    c.literal_cr = false; // finding C01/eol: literal CR / CRLF is not normalised to LF
+    c.literal_cr = true; // literal CR / CRLF (normalised to LF since the fix e41cb81)
     c
 }
 
@@ -408,7 +408,9 @@ pub fn explain_blind(text: &str) -> Option<&'static str> {
     let lead = |out: &str| -> bool {
         let t = out.trim_end_matches(|c: char| c == ' ' || c == '\t' || c == '\n' || c == '\r');
         let had_ws = t.len() != out.len();
-        out.ends_with('&') || (had_ws && (t.ends_with("<!ENTITY") || t.ends_with("<!NOTATION") || t.ends_with("NDATA")))
+        // ... and the names listed in a NOTATION attribute type: NOTATION ( name | name )
+        let in_notation_group = (t.ends_with('(') || t.ends_with('|')) && t.rfind('<').map(|p| t[p..].contains("NOTATION") && t[p..].starts_with("<!ATTLIST")).unwrap_or(false);
+        out.ends_with('&') || in_notation_group || (had_ws && (t.ends_with("<!ENTITY") || t.ends_with("<!NOTATION") || t.ends_with("NDATA")))
     };
     let starts = |i: usize, pat: &str| -> bool { let p: Vec<char> = pat.chars().collect(); i + p.len() <= cs.len() && cs[i..i + p.len()] == p[..] };
     let find_from = |i: usize, pat: &str| -> Option<usize> { let p: Vec<char> = pat.chars().collect(); (i..cs.len().saturating_sub(p.len() - 1)).find(|&j| cs[j..j + p.len()] == p[..]) };
